@@ -229,7 +229,23 @@ pub fn check(case: &C06Case, st: &mut Stats) -> Verdict {
                 st.label("second_presentation_on_same_holder");
                 st.sub(2);
                 if let Out::Ok(mut holder) = sut::new_holder(&issued_text, spec.fmt) {
-                    let first = sut::present_with(&mut holder, &case.selection, case.kb.as_ref());
+                    // sometimes the first call on that holder is one that FAILS after it has
+                    // already picked something: the selection plus a claim that does not exist
+                    let first = if sel2.len() % 2 == 1 {
+                        st.label("second_presentation_after_a_failed_call");
+                        let mut bad = case.selection.clone();
+                        bad.insert("no_such_claim_zz".into(), Value::Bool(true));
+                        let r = sut::present_with(&mut holder, &bad, case.kb.as_ref());
+                        if r.is_ok() {
+                            return Err(Failure::new("presentation:unknown-claim-accepted", "selecting a claim that does not exist returned a presentation"));
+                        }
+                        if let Out::Panic(p) = &r {
+                            return Err(Failure::new(panic_sig("create_presentation", p), format!("create_presentation panicked: {}", p)));
+                        }
+                        sut::present_with(&mut holder, &case.selection, case.kb.as_ref())
+                    } else {
+                        sut::present_with(&mut holder, &case.selection, case.kb.as_ref())
+                    };
                     let second = sut::present_with(&mut holder, sel2, None);
                     if first.is_ok() {
                         let p2 = must_ok("create_presentation(second call on the same holder)", second)?;
